@@ -246,8 +246,12 @@ func (c *Collector) collect() {
 
 	// generate the new hot keys.
 	res := newSortedHotKeys(c.capacity)
-	for keyName, counter := range curHotKeys {
+	for keyName, curCounter := range curHotKeys {
 		visits := accessedKeyNames[keyName]
+		// The current hot keys stay visible to readers until the new ones
+		// are published, so update a copy instead of the shared counter.
+		counter := new(logrithmCounter)
+		*counter = *curCounter
 		counter.ReaptIncr(visits)
 		key := HotKey{Name: keyName, Counter: counter}
 		res.Insert(key)
